@@ -395,8 +395,20 @@ def o12(tier):
     return _shared(lambda: C20.o1(tier), 'O12', 'shared with C20-O1: the snapshot manager (queue, storage, hydration after a restart) equals the reference model after every step, so the snapshot the MIP-03 comparison looks at is the one of the applied commit, not a timestamp-less duplicate')
 
 
+def o13(tier):
+    """the configured retention depth is the one in force"""
+    from props import C20
+    return _shared(lambda: C20.o3(tier), 'O13', 'shared with C20-O3: the snapshot manager is built with the configured epoch_snapshot_retention, so forks up to that depth keep their snapshots')
+
+
+def o14(tier):
+    """the rollback invalidation on SQLite does not touch records of the target epoch itself (e.g. the member's own pending commit, recorded under the pre-commit epoch)"""
+    from props import C10
+    return _shared(lambda: C10.o3(tier), 'O14', 'shared with C10-O3: on SQLite the rollback to epoch e invalidates exactly the records with epoch > e, so a competing committer\'s own commit (recorded under e) can still be applied after the rollback')
+
+
 def run(tier, seed, only=None):
-    obs = [('O1', o1), ('O2', o2), ('O4', o4), ('O5', o5), ('O6', o6), ('O7', o7), ('O8', o8), ('O9', o9), ('O10', o10), ('O11', o11), ('O12', o12)]
+    obs = [('O1', o1), ('O2', o2), ('O4', o4), ('O5', o5), ('O6', o6), ('O7', o7), ('O8', o8), ('O9', o9), ('O10', o10), ('O11', o11), ('O12', o12), ('O13', o13), ('O14', o14)]
     out = []
     for k, f in obs:
         if only and k not in only:
